@@ -180,7 +180,7 @@ class VerusUnit:
         for k, fb in times.items():
             parts = k.split('::')
             mod = parts[0] if len(parts) > 1 else ''
-            if (mod, parts[-1]) in extracted_names:
+            if (mod, parts[-1]) in extracted_names or parts[-1] in [p_.get('fn') for p_ in probes]:
                 continue
             lemmas.append(dict(name=k, module=mod, mode=fb.get('mode:'), verified=fb.get('success', False), time_ms=fb.get('time')))
         clauses = []
